@@ -272,7 +272,22 @@ def build(cls_name, cfg, rec: Recorder):
               no_increase_num=cfg.get("no_increase_num"), n_jobs=1)
     if g2p is not None:
         kw["genotype_to_phenotype"] = rec.wrap_g2p(g2p)
-    kw["on_generation"] = lambda o: rec.callbacks.append(len(rec.snaps))
+    rec.cb_obs = []        # what a user's callback sees: (individuals evaluated so far, reported best fitness)
+
+    def _on_generation(o):
+        rec.callbacks.append(len(rec.snaps))
+        got = o.get_fittest()
+        rec.cb_obs.append((sum(rec.batch_sizes), float(got["fitness"])))
+        if cfg.get("scribble"):
+            # a callback that post-processes the record it was handed (legitimate: the record is the caller's copy)
+            got["fitness"] = -1234.5
+            for key in ("genotype", "phenotype"):
+                v = got[key]
+                if isinstance(v, np.ndarray) and v.dtype != object:
+                    v[...] = v.dtype.type(1) if v.dtype.kind in "iub" else -777.25
+                elif hasattr(v, "_nodes"):
+                    v._nodes.reverse()
+    kw["on_generation"] = _on_generation
     if cls_name in BINARY:
         kw["str_len"] = cfg.get("str_len", 10)
     if cls_name in FLOAT:
